@@ -73,7 +73,8 @@ class PathsProfile(StoreProfile):
                     return {"op": "path", "sid": base, "cfg": c, "spell": spell, "type": forced}
         if rng.random() < 0.5:
             return {"op": "path", "sid": s, "cfg": c, "spell": spell}
-        return {"op": "roundtrip", "sid": s, "cfg": c, "other": rng.choice(m.configs), "spell": spell}
+        return {"op": "roundtrip", "sid": s, "cfg": c, "other": rng.choice(m.configs), "spell": spell,
+                "aspath": rng.random() < 0.5}
 
     def path_expr(self, s, c, spell, forced=None):
         S = X.sid((forced + ":" + s) if forced else s)
@@ -161,9 +162,13 @@ class PathsProfile(StoreProfile):
                 f0 = self.twin_obs(run, e0)
                 run.check(o0 == f0, "C05.path_to_sid_differs_from_fresh_process", {"path": p, "cfg": c2, "got": o0, "fresh": f0})
                 run.probes["other_config_asked_first"] += 1
-            e1 = X.call("Sid", path=p, config=c) if step["spell"] != "pos" else X.call("Sid", None, None, None, p, c)
+            # the path is handed back as str or as the pathlib.Path that sid.path() returns (both are legal inputs)
+            pv = X.call("Path", p) if step.get("aspath") else p
+            e1 = X.call("Sid", path=pv, config=c) if step["spell"] != "pos" else X.call("Sid", None, None, None, pv, c)
             if step["spell"] == "default":
-                e1 = X.call("Sid", path=p)
+                e1 = X.call("Sid", path=pv)
+            if step.get("aspath"):
+                run.probes["roundtrip_with_pathlib_path"] += 1
             o1 = run.do(e1)
             run.check(isinstance(o1, dict) and "~S" in o1, "C05.path_to_sid_raises", {"path": p, "cfg": c, "got": o1})
             back = X.SidObs(o1)
